@@ -8,6 +8,7 @@
 //! Addresses are [ia, port]: ia 0 = unspecified, 1 = loopback, n >= 2 = 10.0.0.n
 //! (fd00::n with cfg.v6). Host number i owns address ia = i + 2.
 //! cmd =
+//!   (listen / connect / accept / udp_bind answer "noslot" and do nothing when the target slot is occupied)
 //!   ["listen", slot, host, ia, port]      TcpListener::bind (one poll)
 //!   ["connect", slot, host, ia, port]     TcpStream::connect, first poll
 //!   ["poll_connect", slot]                poll the pending connect again
@@ -158,6 +159,16 @@ fn run_case(case: &Value) -> Value {
     for cmd in case["script"].as_array().unwrap() {
         let c = cmd.as_array().unwrap();
         let name = c[0].as_str().unwrap();
+        // A handle is never created in an occupied slot (no implicit drop of the old handle).
+        let target = match name {
+            "listen" | "connect" | "udp_bind" => c[1].as_u64(),
+            "accept" => c[2].as_u64(),
+            _ => None,
+        };
+        if target.map_or(false, |t| slots.contains_key(&t)) {
+            obs.push(json!({"r": "noslot"}));
+            continue;
+        }
         let o: Value = match name {
             "listen" => {
                 let slot = c[1].as_u64().unwrap();
@@ -252,9 +263,7 @@ fn run_case(case: &Value) -> Value {
                 match res {
                     Some((Poll::Ready(Ok((s, peer))), h)) => {
                         let a = stream_addrs(&s);
-                        if let Some(old) = slots.insert(ns, Slot::Stream(s, h)) {
-                            drop_slot(&guard, &hosts, old);
-                        }
+                        slots.insert(ns, Slot::Stream(s, h));
                         json!({"r": "ok", "from": enc_sa(peer), "a": a})
                     }
                     Some((Poll::Ready(Err(e)), _)) => json!({"r": err(&e)}),
